@@ -59,7 +59,7 @@ def rand_ops(rng, c, n):
             for h in rng.sample([0, 1, 2, 3, 5], rng.choice([1, 1, 2, 3])):
                 ops.append(("tsat", tk, h))
         elif r < 0.7:
-            ops.append((rng.choice(["str", "repr", "eq", "ne"]),))
+            ops.append((rng.choice(["str", "repr", "eq", "ne", "eqperm", "eqperm"]),))
         elif r < 0.8:
             ops.append(("hash", rng.randrange(1 << 30)))
         elif r < 0.92:
@@ -87,6 +87,22 @@ def events_of(c):
 
 
 _detail = [""]
+_perm = [None]
+
+
+def permuted_text(text):
+    """the same sections, last first (None when the text is not plainly sectioned)"""
+    nl = "\r\n" if "\r\n" in text else "\n"
+    lines = text.split(nl)
+    secs, cur = [], []
+    for l in lines:
+        cur.append(l)
+        if l == "}":
+            secs.append(cur)
+            cur = []
+    if any(x for x in cur) or len(secs) < 2:
+        return None
+    return nl.join(l for sec in reversed(secs) for l in sec) + nl
 
 
 def _val(f):
@@ -127,6 +143,14 @@ def apply(c, twin, op):
             return "unit"
         if kind == "repr":
             repr(c)
+            return "unit"
+        if kind == "eqperm":
+            # compared, both ways round, with a chart of the same sections written in the opposite order in its file
+            p = _perm[0]
+            if p is not None:
+                a, b = (p == c), (c == p)
+                if a != b:
+                    return "NOT-EQUAL"
             return "unit"
         if kind == "eq":
             return "unit" if (c == twin and twin == c) else "NOT-EQUAL"
@@ -190,6 +214,8 @@ def run_case(text, ops):
     """returns (problem or None, per-op outcomes, per-op key maps)"""
     c, e, _ = impl.parse(text)
     twin, _, _ = impl.parse(text)
+    pt = permuted_text(text)
+    _perm[0] = impl.parse(pt)[0] if pt is not None else None
     if c is None:
         return "parse-failed:" + impl.err_name(e), [], []
     obs0 = observation(c)
